@@ -215,7 +215,11 @@ def run(tier):
                      "TLC integers are 32 bit: exact records use small rational states; irrational variables (asound, mach) are compared "
                      "through their squares, entropy through the harness-evaluated logarithm (ulps)"],
         mc_runs=[("MC_Vars", "MC_Vars.cfg" if tier == "quick" else "MC_Vars_f.cfg", 4)],
-        groups=[("Judge_Model", recs)], prefixes=["C17"], sig_of=sig_of)
+        groups=[("Judge_Model", recs)], prefixes=["C17"], sig_of=sig_of,
+        symbolic=("Apa_Vars", ["InvPrimRoundTrip", "InvPrimUnique", "InvEnthalpy", "InvKinetic", "InvPressureSign"],
+                  "model level, beyond the grid: Apa_Vars.tla proves with Apalache/Z3 that the Euler conversions (1D and 2D) are "
+                  "mutually inverse and the enthalpy / kinetic-energy identities hold for EVERY state and EVERY rational gamma > 1 "
+                  "(MC_Vars: a grid, gamma 3/2 and 2)"))
 
 
 if __name__ == "__main__":
